@@ -41,6 +41,9 @@ def words_for(sch):
     w.insert(len(w) - 7, b'"a\n\\9"')
     w.insert(len(w) - 7, b"'a\nb")
     w.insert(len(w) - 7, b'""')
+    w.insert(len(w) - 7, b'"a${U\n}b"')        # the braces of a substitution span a line
+    if any(o.has('K') for o in sch.opts):
+        w.insert(len(w) - 7, b'a|b')                 # inside a free-form section this is a key like any other
     secs = [o.name for o in sch.opts if o.kind == 'sec']
     if secs:
         w.insert(len(w) - 7, b'"' + secs[0] + b'|zz"')        # an unknown name written as a path: reported in the parser's context
